@@ -235,7 +235,7 @@ func check(args []string) int {
 	fn := fs.String("func", "", "only this function key (substring)")
 	pkgsFlag := fs.String("pkgs", "", "comma separated package dirs (default: all with contract files)")
 	dump := fs.String("dump", "", "directory to keep .smt2 files")
-	timeout := fs.Duration("timeout", 15*time.Second, "per-obligation timeout")
+	timeout := fs.Duration("timeout", 20*time.Second, "per-obligation timeout")
 	evidence := fs.String("evidence", "", "evidence file to write")
 	verbose := fs.Bool("v", false, "verbose")
 	noReplay := fs.Bool("noreplay", false, "do not run replays")
@@ -348,7 +348,7 @@ func check(args []string) int {
 	if *tier == "thorough" {
 		cfg.All = true
 		cfg.Grace = 4 * time.Second
-		if *timeout == 15*time.Second {
+		if *timeout == 20*time.Second {
 			cfg.Timeout = 60 * time.Second
 		}
 	}
